@@ -216,6 +216,80 @@ def r18c(ctx):
                       "TreeNode.copy no longer builds each node from the copies of its children")
 
 
+def r18k(ctx):
+    m = ctx.model
+    ctx.rule("R18k", "reporting a cycle does not walk the cycle: Builder.build_tree never formats an object of the input graph with "
+                     "repr()/str() (`{node!r}`, `{child}`) outside a guard against RecursionError - the __repr__ of a user class that "
+                     "prints its fields recurses on the very cycle being reported, so the caller gets RecursionError instead of the "
+                     "cycle error or the placeholder (f-strings are evaluated even when the log level drops the message)")
+    bq = m.need_class("Builder")
+    bt = m.method(bq, "build_tree")
+    f = bt.file
+    params = [p_ for p_ in func_params(bt.node) if p_ != "self"]
+    graph = set(params)
+    for _ in range(3):
+        for a in walk_no_nested(bt.node):
+            tg, val = None, None
+            if isinstance(a, ast.Assign):
+                tg, val = a.targets[0], a.value
+            elif isinstance(a, ast.For):
+                tg, val = a.target, a.iter
+            elif isinstance(a, ast.comprehension):
+                tg, val = a.target, a.iter
+            if tg is None:
+                continue
+            if any(isinstance(x, ast.Name) and x.id in graph for x in ast.walk(val)) or "self.expand(" in ast.unparse(val) or "work" in ast.unparse(val):
+                for x in ast.walk(tg):
+                    if isinstance(x, ast.Name) and x.id not in ("_", "t", "work"):
+                        graph.add(x.id)
+    graph -= {"processed_children", "new_node", "grandchildren_", "all_are_leaves", "is_cycle"}
+
+    def guarded_helper(c):
+        """a module-level / same-class helper that wraps repr() in try/except RecursionError"""
+        h = None
+        if isinstance(c.func, ast.Name):
+            r_ = m.resolve_expr(bt.module, c.func)
+            h = m.functions.get(r_[0][1]) if r_ and r_[0] and r_[0][0] == "func" else None
+        elif self_attr(c.func):
+            h = m.method(bq, self_attr(c.func))
+        if h is None:
+            return False
+        for t_ in walk_no_nested(h.node):
+            if isinstance(t_, ast.Try) and any(hd.type is not None and "RecursionError" in ast.unparse(hd.type) for hd in t_.handlers) \
+                    and any(isinstance(x, ast.Call) and call_name(x) in ("repr", "str") for s_ in t_.body for x in ast.walk(s_)):
+                return True
+        return False
+    n = 0
+    bad = []
+    for x in walk_no_nested(bt.node):
+        tgt = None
+        if isinstance(x, ast.FormattedValue) and isinstance(x.value, ast.Name) and x.value.id in graph:
+            tgt = x
+        elif isinstance(x, ast.Call) and call_name(x) in ("repr", "str") and x.args and isinstance(x.args[0], ast.Name) and x.args[0].id in graph:
+            tgt = x
+        elif isinstance(x, ast.FormattedValue) and isinstance(x.value, ast.Call) and any(isinstance(a_, ast.Name) and a_.id in graph for a_ in x.value.args):
+            n += 1
+            if not (guarded_helper(x.value) or call_name(x.value) in ("type", "id", "len")):
+                bad.append(x)
+            continue
+        if tgt is None:
+            continue
+        n += 1
+        in_try = any(isinstance(a_, ast.Try) and any(hd.type is not None and "RecursionError" in ast.unparse(hd.type) for hd in a_.handlers)
+                     for a_ in __import__("gtstatic.astx", fromlist=["ancestors"]).ancestors(tgt))
+        if not in_try:
+            bad.append(tgt)
+    for x in bad:
+        ctx.violation("R18k", f, "Builder.build_tree", x, f"formats `{norm(x, 30)}`",
+                      f"`{norm(x, 40)}` calls the __repr__/__str__ of an object of the input graph while a cycle through it is being "
+                      f"reported: two objects that refer to each other and print their fields make this raise RecursionError, with "
+                      f"ignore_cycles on as well (the debug message is formatted before the logger drops it)")
+    if not bad:
+        ctx.proved("R18k", f, "Builder.build_tree", bt.node, "cycle messages do not recurse",
+                   f"{n} formatted objects of the input graph, all through a RecursionError guard or by type/id")
+    ctx.floor("R18k", n, 1, "input-graph objects formatted in Builder.build_tree")
+
+
 def r18d(ctx):
     m = ctx.model
     ctx.rule("R18d", "cycle guard: the iterative builder compares the node being expanded with its ancestors on the work "
@@ -569,6 +643,7 @@ def r18i(ctx):
 
 
 def run(ctx):
+    r18k(ctx)
     r18a(ctx)
     r18b(ctx)
     r18c(ctx)
